@@ -20,7 +20,7 @@ import re
 import warnings
 
 import core  # noqa: F401
-from rdflib import BNode, Dataset, Graph, Literal, URIRef
+from rdflib import BNode, ConjunctiveGraph, Dataset, Graph, Literal, URIRef
 from rdflib.graph import ReadOnlyGraphAggregate
 from rdflib.namespace import RDF
 from rdflib.paths import (AlternativePath, InvPath, MulPath, NegatedPath, SequencePath, eval_path, evalPath, inv_path,
@@ -88,6 +88,25 @@ ROUTE_GRAPH = {"so_unique": FULL, "so_list": FULL, "value": FULL, "slice": FULL,
                "sparql_same_values": FULL}
 BGP_ROUTES = ("sparql_same", "sparql_join_before", "sparql_join_after", "sparql_same_init", "sparql_same_values")
 GNAME2 = URIRef(E + "g2")
+# round h: the KIND of graph object every `env["g"]` route runs on (case["kind"]):
+#   graph     a plain Graph holding all the triples
+#   ds_union  Dataset(default_union=True): default graph + named graphs g1, g2, read as their union
+#   cg        ConjunctiveGraph with the same three contexts (its default view is the union)
+#   agg       ReadOnlyGraphAggregate of 2-3 member graphs
+#   named     ds.graph(g1): a named-graph view of a dataset whose other graphs hold OTHER triples on the same store
+KINDS = ["graph", "ds_union", "cg", "agg", "named"]
+VIEW_ROUTES = {"triples", "so", "so_unique", "so_list", "value", "slice", "resource", "eval_direct", "interleave",
+               "sparql_const", "sparql_values", "sparql_tree", "sparql_init", "sparql_n3", "api", "first_false",
+               "sparql_same", "sparql_join_before", "sparql_join_after", "sparql_same_init", "sparql_same_values"}
+
+
+def view_part(case):
+    """which list of triples the view of the case holds (index into _graphs(case))"""
+    return {"agg": AGG, "named": NAMED}.get(case.get("kind", "graph"), FULL)
+
+
+def route_part(route, case):
+    return view_part(case) if route in VIEW_ROUTES else ROUTE_GRAPH[route]
 
 
 # ------------------------------------------------------------------ paths
@@ -695,7 +714,8 @@ def gen_empty_view(rng):
         o = s
     return {"triples": T, "ghost": ghost, "path": path, "ends": [[s, None], [None, o], [s, o], [None, None]],
             "routes": ["triples", "so", "agg", "ds_default", "ds_named", "sparql_const", "sparql_tree", "sparql_ds_union",
-                       "sparql_ds_default", "sparql_ds_graph", "sparql_n3"] + list(BGP_ROUTES), "style": rng.choice([0, 1, 2])}
+                       "sparql_ds_default", "sparql_ds_graph", "sparql_n3"] + list(BGP_ROUTES), "style": rng.choice([0, 1, 2]),
+            "kind": rng.choice(KINDS)}
 
 
 # ---- incremental construction from shared sub-path objects ------------------------------------------------
@@ -895,8 +915,15 @@ def gen_case(rng, tier, i):
         else:
             # SPARQL over the composite graph: the hops of a path lie in different member graphs
             routes += ["sparql_agg", "sparql_agg_values", "sparql_agg_init", "sparql_init"]
+    kind = rng.choice(["graph", "graph", "ds_union", "cg", "agg", "named"])
+    if kind == "named":
+        # the ends refer to the named graph's own triples where possible
+        usedn = {x for t in T if t[3] in (1, 2) for x in (t[0], t[2])}
+        if usedn and rng.random() < 0.7:
+            s2, o2 = rng.choice(sorted(usedn)), rng.choice(sorted(usedn))
+            ends = [[None, None], [s2, None], [None, o2], [s2, o2 if rng.random() < 0.8 else s2]]
     return {"triples": T, "path": path, "ends": ends, "routes": routes, "style": rng.choice([0, 1, 2]),
-            "store": rng.choice(["Memory", "Memory", "SimpleMemory"])}
+            "store": rng.choice(["Memory", "Memory", "SimpleMemory"]) if kind == "graph" else "Memory", "kind": kind}
 
 
 # ------------------------------------------------------------------ implementation side
@@ -937,7 +964,7 @@ def _applicable(route, case, s, o, parts):
         return False        # shapes of the both-ends-free pattern: `?x path ?x`, an end also bound by another pattern
     if route in ("sparql_same_init", "sparql_same_values") and (s is None or o is not None):
         return False        # `?x path ?x` with ?x pre-bound to the case's start term
-    if route == "sparql_same_values" and s not in {x for t in parts[FULL] for x in (t[0], t[2])}:
+    if route == "sparql_same_values" and s not in {x for t in parts[view_part(case)] for x in (t[0], t[2])}:
         return False        # VALUES with a term absent from the graph: C15-K1 (see ASSUMPTIONS)
     if route == "first_false" and case["path"][0] != "m":
         return False        # MulPath.eval(graph, s, o, first=False): only a MulPath has the flag
@@ -955,7 +982,7 @@ def _applicable(route, case, s, o, parts):
     if route.endswith("_init") and s is None and o is None:
         return False
     if route in ("sparql_values", "sparql_agg_values"):
-        used = {x for t in parts[FULL] for x in (t[0], t[2])}
+        used = {x for t in parts[route_part(route, case)] for x in (t[0], t[2])}
         if (s is None and o is None) or any(x not in used for x in (s, o) if x is not None):
             return False
     return True
@@ -1145,10 +1172,33 @@ def _fill(graph, triples, ghost):
 def _build_env(case, parts):
     env = {"style": case.get("style", 0)}
     ghost = [tuple(t) for t in case.get("ghost", [])]
-    g = Graph(store=case.get("store", "Memory"))
-    _fill(g, parts[FULL], ghost)
+    kind = case.get("kind", "graph")
+    third0 = _third(case)
+    if kind == "graph":
+        g = Graph(store=case.get("store", "Memory"))
+        _fill(g, parts[FULL], ghost)
+    elif kind in ("ds_union", "cg", "named"):
+        # one store, three contexts; `named` looks at it through ds.graph(g1) only (union on or off by style)
+        ds = ConjunctiveGraph() if kind == "cg" else Dataset(default_union=(kind == "ds_union" or case.get("style", 0) == 1))
+        _fill(ds.default_context, parts[DEFAULT], ghost)
+        ng = ds.get_context(GNAME) if kind == "cg" else ds.graph(GNAME)
+        _fill(ng, parts[NAMED], ghost)
+        if third0 or case.get("style"):
+            _fill(ds.get_context(GNAME2) if kind == "cg" else ds.graph(GNAME2), third0, ghost)
+        g = ng if kind == "named" else ds
+        env["view_owner"] = ds
+    else:
+        m0, m1 = Graph(), Graph()
+        _fill(m0, parts[DEFAULT], ghost)
+        _fill(m1, parts[NAMED], ghost)
+        ms = [m0, m1]
+        if third0 or case.get("style"):
+            m2 = Graph()
+            _fill(m2, third0, ghost)
+            ms.append(m2)
+        g = ReadOnlyGraphAggregate(ms)
     env["g"] = g
-    env["T"] = parts[FULL]
+    env["T"] = parts[view_part(case)]
     if "interleave" in case["routes"]:
         g0 = Graph()
         _fill(g0, parts[DEFAULT], ghost)
@@ -1305,6 +1355,7 @@ def run_impl(case):
     stats["self_loop"] = int(any(t[0] == t[2] for t in parts[FULL]))
     stats["axis_build_" + {0: "constructors", 1: "operators", 2: "helper_functions"}[case.get("style", 0)]] = 1
     stats["axis_store_" + case.get("store", "Memory")] = 1
+    stats["axis_kind_" + case.get("kind", "graph")] = 1
     stats["axis_members_3"] = int(bool(_third(case)))
     if any(t[1] == 14 for t in parts[FULL]) or _has(ast, lambda a: a[0] == "i" and a[1] == 14):
         stats["axis_rdf_type_a"] = 1
@@ -1328,7 +1379,7 @@ def run_impl(case):
             obs.append(const_line.get((s, o), "ERR:Other"))
             stats["route_sparql_tree"] = stats.get("route_sparql_tree", 0) + 1
             continue
-        T = parts[ROUTE_GRAPH[route]]
+        T = parts[route_part(route, case)]
         want = expected(ast, T, s, o)
         ast_r = ast
         if route == "first_false" and not (s is None and o is None):
@@ -1436,6 +1487,7 @@ def model_lines(case):
                 lines.append(f"eval {_w(s)} {_w(o)} {toks}")
         return lines
     parts = _graphs(case)
+    vT = parts[view_part(case)]
     toks = " ".join(path_tokens(case["path"]))
     lines = []
     for T in parts:
@@ -1447,11 +1499,11 @@ def model_lines(case):
             stoks = " ".join(parser_tree_tokens(case["path"], case.get("style", 0)))
         except Exception as e:  # the parser rejects / mangles the text: shows as a divergence on this route
             stoks = "unparsed " + type(e).__name__
-        lines.append("graph " + " ".join("%d,%d,%d" % t for t in parts[FULL]))
+        lines.append("graph " + " ".join("%d,%d,%d" % t for t in vT))
         for s, o in case["ends"]:
             lines.append(f"evalsyn {_w(s)} {_w(o)} {stoks}")
     if "sparql_n3" in case["routes"]:
-        lines.append("graph " + " ".join("%d,%d,%d" % t for t in parts[FULL]))
+        lines.append("graph " + " ".join("%d,%d,%d" % t for t in vT))
         for s, o in case["ends"]:
             lines.append(f"evaln3 {_w(s)} {_w(o)} {toks}")
         lines.append("n3 " + toks)
@@ -1461,15 +1513,15 @@ def model_lines(case):
             words = "unwritten " + type(e).__name__
         lines.append("readn3 " + words)
     if "api" in case["routes"]:
-        lines.append("graph " + " ".join("%d,%d,%d" % t for t in parts[FULL]))
+        lines.append("graph " + " ".join("%d,%d,%d" % t for t in vT))
         for s, o in case["ends"]:
             lines.append(f"api {_w(s)} {_w(o)} {toks}")
     if "first_false" in case["routes"] and case["path"][0] == "m":
-        lines.append("graph " + " ".join("%d,%d,%d" % t for t in parts[FULL]))
+        lines.append("graph " + " ".join("%d,%d,%d" % t for t in vT))
         for s, o in case["ends"]:
             lines.append(f"evalf {_w(s)} {_w(o)} {toks}")
     if "sparql_same" in case["routes"]:
-        lines.append("graph " + " ".join("%d,%d,%d" % t for t in parts[FULL]))
+        lines.append("graph " + " ".join("%d,%d,%d" % t for t in vT))
         lines += ["bgp same * " + toks, "bgp before " + toks, "bgp after " + toks]
         for s, o in case["ends"]:
             lines.append(f"bgp same {_w(s)} {toks}")
@@ -1527,7 +1579,7 @@ def select_model_obs(case, out):
         elif route == "sparql_n3":
             line = out[n3_base + 1 + pos[(s, o)]]
         else:
-            line = idx[(ROUTE_GRAPH[route], pos[(s, o)])]
+            line = idx[(route_part(route, case), pos[(s, o)])]
         if not closure and "|" in line:
             line = _dedup_line(line)
         res.append(line)
